@@ -186,6 +186,89 @@ Definition utf8_len (c : Z) : Z := if c <? 128 then 1 else if c <? 2048 then 2 e
 Definition byte_len (s : str) : Z := fold_right (fun c n => utf8_len c + n) 0 s.
 Definition name_too_long (f : str) : bool := 255 <? byte_len f.        (* NAME_MAX *)
 
+(* urllib.parse.unquote_to_bytes on a str: UTF-8 encode, then %XX -> byte *)
+Definition utf8 (c : Z) : list Z :=
+  if c <? 128 then [c]
+  else if c <? 2048 then [192 + c / 64; 128 + c mod 64]
+  else if c <? 65536 then [224 + c / 4096; 128 + (c / 64) mod 64; 128 + c mod 64]
+  else [240 + c / 262144; 128 + (c / 4096) mod 64; 128 + (c / 64) mod 64; 128 + c mod 64].
+Definition hexval (c : Z) : option Z :=
+  if (48 <=? c) && (c <=? 57) then Some (c - 48)
+  else if (65 <=? c) && (c <=? 70) then Some (c - 55)
+  else if (97 <=? c) && (c <=? 102) then Some (c - 87)
+  else None.
+Fixpoint unquote (s : list Z) : list Z :=
+  match s with
+  | [] => []
+  | c :: t =>
+      if c =? 37 then
+        match t with
+        | a :: t' =>
+            match t' with
+            | b :: t'' =>
+                match hexval a, hexval b with
+                | Some x, Some y => (16 * x + y) :: unquote t''
+                | _, _ => c :: unquote t
+                end
+            | [] => c :: unquote t
+            end
+        | [] => [c]
+        end
+      else c :: unquote t
+  end.
+
+(* ------------------------------------------------------------------ uri <-> path, local lines *)
+
+(* urllib.parse.quote_from_bytes(bs)  (safe = "/") *)
+Definition always_safe (c : Z) : bool :=
+  ascii_alpha c || ((48 <=? c) && (c <=? 57)) || (c =? 95) || (c =? 46) || (c =? 45) || (c =? 126).
+Definition hexdigit (d : Z) : Z := if d <? 10 then 48 + d else 55 + d.
+Definition quote_byte (c : Z) : list Z :=
+  if always_safe c || (c =? SLASH) then [c] else [37; hexdigit (c / 16); hexdigit (c mod 16)].
+Definition quote_bytes (bs : list Z) : list Z := flat_map quote_byte bs.
+Definition utf8_str (s : str) : list Z := flat_map utf8 s.
+
+(* pathlib.PurePosixPath(s): components without "" and ".", absolute?, the "//" root *)
+Definition is_dot_comp (c : str) : bool := match c with [] => true | [46] => true | _ => false end.
+Definition pparts (s : str) : list str := filter (fun c => negb (is_dot_comp c)) (split1 SLASH s).
+Definition two_slashes (s : str) : bool :=
+  match s with
+  | 47 :: 47 :: 47 :: _ => false
+  | 47 :: 47 :: _ => true
+  | _ => false
+  end.
+Definition is_abs (s : str) : bool := match s with 47 :: _ => true | _ => false end.
+
+(* os.path.normpath on the components of an absolute path: ".." pops, and is dropped at the root *)
+Fixpoint norm_comps (acc : list str) (cs : list str) : list str :=
+  match cs with
+  | [] => rev acc
+  | c :: t => if str_eqb c [46; 46] then norm_comps (match acc with [] => [] | _ :: a => a end) t
+              else norm_comps (c :: acc) t
+  end.
+
+Definition DOTSTR : str := [46].
+Definition FILE_SCHEME : str := [102; 105; 108; 101; 58].        (* file: *)
+
+(* load_items for a line without scheme: path = basedir / line ;
+   uri = path_to_uri(path, scheme="file") ; default name = name_from_path(path).
+   basedir is absolute (expand_path resolves it); text without lone surrogates. *)
+Definition local_ref (basedir line : str) : item :=
+  let whole := if is_abs line then line else basedir ++ [SLASH] ++ line in
+  let parts := pparts whole in
+  let root := if two_slashes whole then [SLASH; SLASH] else [SLASH] in
+  let normed := root ++ join [SLASH] (norm_comps [] parts) in
+  let quoted := quote_bytes (utf8_str normed) in
+  (* urlunsplit(("file", None, quoted, None, None)) *)
+  let uri := if two_slashes whole then FILE_SCHEME ++ quoted
+             else FILE_SCHEME ++ [SLASH; SLASH] ++ quoted in
+  let nm := match rev parts with [] => DOTSTR | l :: _ => stem l end in
+  (uri, Some nm).
+
+(* the oracle table `locals` computed by the model for the lines of a text *)
+Definition local_table (basedir : str) (ls : list str) : list (str * item) :=
+  map (fun raw => (strip raw, local_ref basedir (strip raw))) ls.
+
 (* ------------------------------------------------------------------ provider over a flat directory *)
 
 Definition pdir := list (str * str).          (* file name -> text; keys unique *)
